@@ -1,11 +1,190 @@
 import Tmcg.Driver
+import Tmcg.Model.PgpMsg
 /-
   Line-protocol handlers of area "pgpmsg" (property C20: OpenPGP signatures and encryption);
   filled by the builder of that area.  Line formats: top of harness/drv_pgpmsg.cc.
+
+  The libgcrypt primitives are replayed from the logs carried by each line; a query the log does
+  not answer gets a default value, and the model is run with two different defaults: a result that
+  depends on an unanswered query shows up as `oracle-miss`.
 -/
 namespace Tmcg.DriverPgpMsg
-open Tmcg Tmcg.Driver
+open Tmcg Tmcg.Driver Tmcg.PgpMsg
 
-def handlers : List (String × Handler) := []
+abbrev Log := List (List (List Nat))
+
+def pBool01 (s : String) : Option Bool := if s = "1" then some true else if s = "0" then some false else none
+
+/-- `[hex,hex]` -/
+def pHexList (s : String) : Option (List (List Nat)) := do
+  let l ← pList s
+  l.mapM pHex
+
+def twice (f : Nat → String) : String :=
+  let a := f 0
+  let b := f 1
+  if a = b then a else "oracle-miss"
+
+/-- block cipher of the key `ekey` from `[block:out]` -/
+def mkE (ekey : List Nat) (log : Log) (bs d : Nat) : Bytes → Bytes → Bytes :=
+  fun k b =>
+    if k = ekey then
+      match log.find? (fun e => e.head? = some b) with
+      | some [_, o] => o
+      | _ => List.replicate bs d
+    else List.replicate bs (d + 2)
+
+def mkSha1 (log : Log) (d : Nat) : Bytes → Bytes :=
+  fun x => match log.find? (fun e => e.head? = some x) with
+    | some [_, o] => o
+    | _ => List.replicate 20 d
+
+/-- `[key:nonce:ad:pt:ct:tag]` -/
+def mkSeal (log : Log) (d : Nat) : Seal :=
+  fun k n a p => match log.find? (fun e => e.take 4 = [k, n, a, p]) with
+    | some [_, _, _, _, c, t] => (c, t)
+    | _ => (List.replicate p.length d, List.replicate 16 d)
+
+/-- `[key:nonce:ad:ct:tag:rc:pt]` -/
+def mkOpen (log : Log) (d : Nat) : Open :=
+  fun k n a c t => match log.find? (fun e => e.take 5 = [k, n, a, c, t]) with
+    | some [_, _, _, _, _, rc, p] => if rc = [0] then some p else none
+    | _ => if d = 0 then none else some [d]
+
+def showSym (r : SymRes) : String :=
+  s!"{r.rc} {hexOfBytes r.seskey} {hexOfBytes r.pfx} {hexOfBytes r.out}"
+
+def hCfbEnc : Handler
+  | [seskey, pfx, resync, input, coins, ekey, elog] => do
+    let seskey ← pHex seskey; let pfx ← pHex pfx; let resync ← pBool01 resync; let input ← pHex input
+    let coins ← pHexList coins; let ekey ← pHex ekey; let elog ← pHexTuples elog
+    some (twice fun d => showSym (symEncryptAES256 (mkE ekey elog 16 d) coins input seskey pfx resync))
+  | _ => none
+
+def hCfbDec : Handler
+  | [algo, seskey, pfx, resync, input, ekey, elog] => do
+    let algo ← pNat algo; let seskey ← pHex seskey; let pfx ← pHex pfx; let resync ← pBool01 resync
+    let input ← pHex input; let ekey ← pHex ekey; let elog ← pHexTuples elog
+    some (twice fun d => showSym (symDecrypt (mkE ekey elog (blockLength algo) d) algo input seskey pfx resync))
+  | _ => none
+
+def hAeadEnc : Handler
+  | [sk, ae, cs, seskey, ad, input, coins, slog] => do
+    let sk ← pNat sk; let ae ← pNat ae; let cs ← pNat cs; let seskey ← pHex seskey; let ad ← pHex ad
+    let input ← pHex input; let coins ← pHexList coins; let slog ← pHexTuples slog
+    some (twice fun d =>
+      let r := aeadEncrypt (mkSeal slog d) coins input seskey sk ae cs ad
+      s!"{r.rc} {hexOfBytes r.seskey} {hexOfBytes r.iv} {hexOfBytes r.out}")
+  | _ => none
+
+def hAeadDec : Handler
+  | [sk, ae, cs, seskey, iv, ad, input, olog] => do
+    let sk ← pNat sk; let ae ← pNat ae; let cs ← pNat cs; let seskey ← pHex seskey; let iv ← pHex iv
+    let ad ← pHex ad; let input ← pHex input; let olog ← pHexTuples olog
+    some (twice fun d =>
+      let r := aeadDecrypt (mkOpen olog d) input seskey sk ae cs iv ad
+      s!"{r.1} {hexOfBytes r.2}")
+  | _ => none
+
+def showFlags (m : Msg) : String := showBool m.haveSed ++ showBool m.haveSeipd ++ showBool m.haveAead
+
+def showMsg (m : Msg) : String :=
+  s!"{m.version} {showFlags m} {m.skalgo} {m.aeadalgo} {m.chunksize} {hexOfBytes m.iv} {hexOfBytes m.encrypted}"
+
+def hMsgParse : Handler
+  | [octets] => do
+    let input ← pHex octets
+    match msgParse input with
+    | .unmodelled => some "unmodelled"
+    | .fail => some "fail"
+    | .ok m => some s!"ok {showMsg m} {hexOfBytes m.mdc}"
+  | _ => none
+
+def pFlags (s : String) : Option (Bool × Bool × Bool) :=
+  match s.toList with
+  | [a, b, c] => do
+    let a ← pBool01 (String.singleton a); let b ← pBool01 (String.singleton b); let c ← pBool01 (String.singleton c)
+    some (a, b, c)
+  | _ => none
+
+def hMsgDec : Handler
+  | [version, flags, sk, ae, cs, iv, enc, key, ekey, elog, hlog, olog] => do
+    let version ← pNat version; let (sed, seipd, aead) ← pFlags flags
+    let sk ← pNat sk; let ae ← pNat ae; let cs ← pNat cs; let iv ← pHex iv; let enc ← pHex enc
+    let key ← pHex key; let ekey ← pHex ekey; let elog ← pHexTuples elog; let hlog ← pHexTuples hlog
+    let olog ← pHexTuples olog
+    let m : Msg := { version := version, haveSed := sed, haveSeipd := seipd, haveAead := aead, skalgo := sk,
+                     aeadalgo := ae, chunksize := cs, iv := iv, encrypted := enc }
+    let algo := if key ≠ [] ∧ !aead then key.headD 0 else sk
+    some (twice fun d =>
+      let r := msgDecrypt (mkE ekey elog (blockLength algo) d) (mkSha1 hlog d) (mkOpen olog d) m key
+      s!"{showBool r.1} {hexOfBytes r.2}")
+  | _ => none
+
+/-- `[algo:input:digest]`, algo = OpenPGP hash algorithm octet -/
+def mkH (log : Log) (d : Nat) : Nat → Bytes → Bytes :=
+  fun algo x => match log.find? (fun e => e.take 2 = [[algo], x]) with
+    | some [_, _, o] => o
+    | _ => List.replicate (hashLength algo) d
+
+/-- `[data:rc]`, rc big endian -/
+def mkPk (log : Log) (d : Nat) : Bytes → Nat :=
+  fun x => match log.find? (fun e => e.head? = some x) with
+    | some [_, rc] => Pgp.fromBE rc
+    | _ => d
+
+def hHash : Handler
+  | [kind, ver, algo, a, b, c, trailer, hlog] => do
+    let ver ← pNat ver; let algo ← pNat algo; let a ← pHex a; let b ← pHex b; let c ← pHex c
+    let trailer ← pHex trailer; let hlog ← pHexTuples hlog
+    let input ← match kind with
+      | "bin" => some (hashInputBinary ver a trailer)
+      | "text" => some (hashInputText ver a trailer)
+      | "standalone" => some (hashInputStandalone ver trailer)
+      | "key" => some (hashInputKey ver a trailer)
+      | "key2" => some (hashInputKey2 ver a b trailer)
+      | "cert" => some (hashInputCert ver a b c trailer)
+      | _ => none
+    some (twice fun d =>
+      let r := hashAndLeft (mkH hlog d) algo input
+      s!"{hexOfBytes r.1} {hexOfBytes r.2}")
+  | _ => none
+
+def hValidity : Handler
+  | [creation, expiration, hashalgo, keycreation, now] => do
+    let creation ← pNat creation; let expiration ← pNat expiration; let hashalgo ← pNat hashalgo
+    let keycreation ← pNat keycreation; let now ← pNat now
+    let s : Sig := { version := 4, type := 0, pkalgo := 1, hashalgo := hashalgo, creation := creation,
+                     expiration := expiration }
+    let r := checkValidity s keycreation now
+    some s!"{showBool r.1} {showBool r.2}"
+  | _ => none
+
+def hVerify : Handler
+  | [kind, ver, type, pkalgo, hashalgo, creation, hspd, left, qbits, rbits, sbits, a, b, c, hlog, pklog] => do
+    let ver ← pNat ver; let type ← pNat type; let pkalgo ← pNat pkalgo; let hashalgo ← pNat hashalgo
+    let creation ← pNat creation; let hspd ← pHex hspd; let left ← pHex left
+    let qbits ← pNat qbits; let rbits ← pNat rbits; let sbits ← pNat sbits
+    let a ← pHex a; let b ← pHex b; let c ← pHex c; let hlog ← pHexTuples hlog; let pklog ← pHexTuples pklog
+    let s : Sig := { version := ver, type := type, pkalgo := pkalgo, hashalgo := hashalgo, creation := creation,
+                     hspd := hspd, left := left }
+    let t ← match kind with
+      | "data" => some (Target.data a)
+      | "datalit" => some (Target.dataLit a (c.headD 0) b (Pgp.fromBE (c.drop 1)))
+      | "standalone" => some Target.standalone
+      | "key" => some (Target.key a)
+      | "key2" => some (Target.key2 a b)
+      | "uid" => some (Target.uid a b)
+      | "uat" => some (Target.uat a b)
+      | _ => none
+    some (twice fun d => showBool (verifySig (mkH hlog d) (mkPk pklog d) s ⟨qbits, rbits, sbits⟩ t))
+  | _ => none
+
+def handlers : List (String × Handler) := [
+  ("pgpmsg.cfb.enc", hCfbEnc), ("pgpmsg.cfb.dec", hCfbDec),
+  ("pgpmsg.aead.enc", hAeadEnc), ("pgpmsg.aead.dec", hAeadDec),
+  ("pgpmsg.msg.parse", hMsgParse), ("pgpmsg.msg.dec", hMsgDec),
+  ("pgpmsg.hash", hHash), ("pgpmsg.validity", hValidity), ("pgpmsg.verify", hVerify)
+]
 
 end Tmcg.DriverPgpMsg
